@@ -131,6 +131,14 @@ class Ctx:
         with open(tmp, 'w') as fh:
             json.dump(ev, fh, indent=1, sort_keys=True)
         os.replace(tmp, os.path.join(d, self.prop + '.json'))
+        if self.violation_keys:
+            agg = {}
+            for k in self.violation_keys:
+                kk = json.dumps(k, sort_keys=True)
+                agg[kk] = agg.get(kk, 0) + 1
+            print('[{}] violation keys:'.format(self.prop), flush=True)
+            for kk, c in sorted(agg.items(), key=lambda x: -x[1])[:40]:
+                print('    {:6d} x {}'.format(c, kk), flush=True)
         summary = {k: v for k, v in cov.items() if isinstance(v, (int, float, bool))}
         print('[{}] tier={} seed={} wall={}s violations={} known_hits={} coverage={}'.format(
             self.prop, self.tier, self.seed, ev['wall_s'], self.n_viol, self.n_known, summary), flush=True)
